@@ -54,6 +54,9 @@ def all_configs():
             for fno in (0.6, 1.0, 3.0):
                 for dfrac in (0.5, 0.8):
                     out.append(("cassegrain", (R, fno, dfrac, q, p)))          # e = q/p > 1
+            if (p, q) in ((3, 5), (5, 13), (8, 17)):      # the secondary's vertex cap takes the whole cone
+                for fno in (2.0, 3.0, 8.0):              # (system f-number 0.5 .. 3.6)
+                    out.append(("convex_paraboloid_relay", (R, fno, 0.6, p, q)))    # e = p/q < 1
         for na in NAS + (0.95,):
             out.append(("sphere_mirror_centre", (R, na)))
         for n in INDICES:
@@ -198,7 +201,10 @@ def main(ctx):
     rnd = random.Random(ctx.seed * 7919 + 6)
     grid = all_configs()
     ctx.extra["grid_size(direct+folded)"] = 2 * len(grid)
-    tasks = [(n, a, f, quick) for (n, a) in grid for f in (False, True)]
+    # (the two-mirror relay behind a convex primary is built in the direct orientation only: folded,
+    #  its secondary would stand between the fold mirror and the primary)
+    tasks = [(n, a, f, quick) for (n, a) in grid for f in (False, True)
+             if not (f and n == "convex_paraboloid_relay")]
     if quick:
         # a seeded sub-grid that keeps every family, both orientations and the fastest apertures
         byname = {}
